@@ -7,7 +7,8 @@ from .values import (Sym, Ref, ListV, DictV, ObjV, SliceV, FuncV, Builtin, Class
                      POISON, Poison, Unsupported, PyRaise, NeedSplit, fresh, mk_int, mk_bool, int_term, bool_term,
                      str_term, is_int, SORT_OF_TAG, SEQ_OF_TAG)
 
-BUILTINS = {"len", "min", "max", "sum", "all", "any", "sorted", "int", "ord", "isinstance", "slice", "list", "tuple",
+BITOR = z3.Function("BITOR", T.I, T.I, T.I)
+BUILTINS = {"super", "len", "min", "max", "sum", "all", "any", "sorted", "int", "ord", "isinstance", "slice", "list", "tuple",
             "dict", "range", "zip", "enumerate", "chain", "str", "repr", "hash", "cast", "bool", "type", "getattr",
             "hasattr", "chr", "abs", "print", "set", "iter", "next"}
 EXC_NAMES = {"IndexError", "NotImplementedError", "ValueError", "TypeError", "Exception", "KeyError", "AssertionError",
@@ -64,6 +65,8 @@ class ExprMixin:
                 return self.module_lambda_table(name)
             inl = getattr(self.contract, "inline", {}) or {}
             if name in inl:
+                if isinstance(v, type):
+                    return ClassV(name)         # a class whose __init__/__enter__/__exit__ are inlined (calls.construct)
                 return self.inline_function(inl[name])
             if name in BUILTINS:
                 return Builtin(name)
@@ -379,6 +382,8 @@ class ExprMixin:
                 raise Unsupported("floor division by a symbolic or negative divisor")
             if op == "BitAnd" and isinstance(b, int) and b >= 0 and isinstance(a, Sym):
                 return self.bitand_const(a, b, st)
+            if op == "BitOr":
+                return mk_int(BITOR(ta, tb))        # uninterpreted: only its being a function of the operands is used
             raise Unsupported(f"int operator {op}")
         # str / bytes
         if isinstance(a, (str, bytes)) and isinstance(b, type(a)) and op == "Add":
@@ -620,6 +625,9 @@ class ExprMixin:
                         return o.items[idx]
                     raise PyRaise("KeyError")
                 raise Unsupported("symbolic key into a heap dict")
+            from .values import AbsV
+            if isinstance(o, AbsV):
+                return st.alloc(AbsV(fresh("absitem", T.I), parent=v, kind=o.kind + "[]"))
         if isinstance(v, Sym) and v.tag in ("str", "bytes") and (is_int(idx)):
             n = z3.Length(v.t)
             i = int_term(idx)
@@ -677,6 +685,15 @@ class ExprMixin:
                     except IndexError:
                         raise PyRaise("IndexError")
                     return
+        from .values import AbsV
+        if isinstance(obj, Ref) and isinstance(st.deref(obj), AbsV):
+            self.ev(slice_node, st)
+            cur = obj
+            while cur is not None:          # the object and everything it was taken from get new contents
+                o = st.deref(cur)
+                o.term = fresh("abs", T.I)
+                cur = o.parent
+            return
         if isinstance(obj, Sym) and obj.tag in ("fmtstr", "atts"):
             raise PyRaise("Exception")      # FmtStr.__setitem__ / FrozenAttributes.__setitem__ raise (C13-F3)
         raise Unsupported(f"item store on {obj!r}")
